@@ -15,13 +15,19 @@ NameRows == { << "option", r[2], r[1] >> : r \in OptionRows }
        \cup { << "type", r[2], r[1] >> : r \in TypeRows }
        \cup { << "observe", r[2], r[1] >> : r \in ObserveRows }
 
+\* the API's catch-all names are the image of no number: each stands for byte 255 (7.31), which reads
+\* back as reserved and, taken as a response code, is an error like every byte from 128 up
+CatchAllRows == { << "method", 255 >>, << "response", 255 >> }
+
 VARIABLE row
 Init == \/ \E n \in 0 .. 65535 : row = [kind |-> "number", n |-> n]
-        \/ \E r \in NameRows : row = [kind |-> "name", space |-> r[1], name |-> r[2], n |-> r[3]]
+        \/ \E r \in NameRows : row = [kind |-> "name", space |-> r[1], name |-> r[2], n |-> r[3], err |-> IsErrorCode(r[3])]
+        \/ \E r \in CatchAllRows : row = [kind |-> "catchall", space |-> r[1], n |-> r[2], err |-> IsErrorCode(r[2]),
+                                           back |-> CodeKind(r[2])]
 Next == UNCHANGED row
 Spec == Init /\ [][Next]_row
 
-Row == IF row.kind = "name" THEN row
+Row == IF row.kind \in { "name", "catchall" } THEN row
        ELSE LET n == row.n IN
             IF n <= 255
             THEN [kind |-> "number", n |-> n, opt |-> NameOf(OptionRows, n), cf |-> NameOf(ContentFormatRows, n),
